@@ -4,8 +4,8 @@ CONSTANTS
   SemSize = 1
   Kind = "base"
   MayFail = {1, 2}
-  EndOrder = "cancel-release"
-  AcquireAnswer = "ctxerr"
+  EndOrder = "release-cancel"
+  AcquireAnswer = "cause"
   ParentMay = FALSE
-INVARIANTS RunReturnsFirstError
+INVARIANTS NoAcceptAfterFailure
 CHECK_DEADLOCK FALSE
